@@ -220,6 +220,36 @@ theorem checker_exact (fs : FS) (cfg : Cfg) (locs : List Dir)
     ((loaded.map (·.1)).Nodup ∧ ∀ n, n ∈ loaded.map (·.1) ↔ Expected fs cfg locs n) :=
   judge_exact_iff fs cfg locs loaded keys dupWarn
 
+/-! ## file names -/
+
+/-- **Name rule.** The file-name regexes accept exactly the names the documented rule calls
+revision file names: every `.py` (sourceless: also `.pyc`/`.pyo`) name that is neither an Emacs lock
+file `.#…` nor the module `__init__` — whatever else the name starts with. -/
+theorem name_rule (sourceless : Bool) (n : Name) :
+    (matchRevFile sourceless n).isSome = isRevName sourceless n := by
+  unfold matchRevFile lookaheadRejects isRevName isLock isInitModule
+  cases startsWith lockPrefix n <;> cases startsWith (initPrefix ++ ['.']) n <;>
+    cases endsWith dotPy n <;> cases sourceless <;> cases endsWith dotPyc n <;>
+    cases endsWith dotPyo n <;> simp
+
+/-- a revision file (rule with siblings) always has a revision file name -/
+theorem isRevFile_name (fs : FS) (cfg : Cfg) (n : Nat) (h : isRevFile fs cfg n = true) :
+    isRevName cfg.sourceless (fs.node n).name = true := by
+  unfold isRevFile at h
+  unfold isRevName
+  simp only [Bool.and_eq_true, Bool.not_eq_true', Bool.or_eq_true] at h ⊢
+  obtain ⟨⟨h1, h2⟩, hk⟩ := h
+  refine ⟨⟨h1, h2⟩, ?_⟩
+  rcases hk with (hk | ⟨⟨hs, hc⟩, _⟩) | ⟨⟨⟨hs, ho⟩, _⟩, _⟩
+  · exact Or.inl hk
+  · exact Or.inr ⟨hs, Or.inl hc⟩
+  · exact Or.inr ⟨hs, Or.inr ho⟩
+
+example : isRevName false ".a3_local.py".toList = true ∧ isRevName false "#b3_wip.py".toList = true ∧
+    isRevName false ".#a3.py".toList = false ∧ isRevName false "__init__.py".toList = false ∧
+    isRevName false "__init__x.py".toList = true ∧ isRevName false "a.pyc".toList = false ∧
+    isRevName true "a.pyc".toList = true := by decide
+
 /-! ## a source file wins over its compiled form -/
 
 /-- `_from_filename` never imports a `.pyc`/`.pyo` whose `.py` sibling exists (sourceless mode or
